@@ -385,6 +385,10 @@ def main(chk):
     for i in range(0, len(faults), 2 if not quick else 4):
         jobs.append({"id": "rf%d" % i, "kind": "readfault", "seed": job_seed(chk.seed, "C19", "rf%d" % i), "faults": faults[i:i + (2 if not quick else 4)]})
     jobs.append({"id": "cfg", "kind": "config", "seed": 1})
+    if not quick:
+        corrupt = [j for j in jobs if j["kind"] == "corrupt"]
+        jobs += chk.shard(corrupt + [j for j in jobs if j["kind"] == "random"][:60], "asan", 120)
+        jobs += chk.shard(corrupt, "valgrind", 40)
     chk.run_jobs(jobs, budget_s=420 if quick else 3000)
     return chk.finish(
         rule="trees with 1-5 zip archives (.zip .jar .war .ear, upper/mixed case; 0..9 members: nested directories, stored/deflated, modes "
